@@ -177,7 +177,33 @@ func runVisoCase(c *visoCaseJ, em *emitter, index int) error {
 		}
 	}
 
-	ev := map[string]interface{}{"ev": "Open", "name": c.Name, "index": index, "ps3": c.Ps3}
+	ev := map[string]interface{}{"ev": "Open", "name": c.Name, "index": index, "ps3": c.Ps3, "huge": false}
+	// more data than the model checker's 32-bit sector numbers can express (about 4 TiB): such an image is not decoded;
+	// TLC only sees whether it was refused or announced at least that much
+	var dataTotal int64
+	filepath.Walk(filepath.Join(append([]string{w.root}, c.Dir...)...), func(_ string, fi os.FileInfo, err error) error {
+		if err == nil && fi.Mode().IsRegular() {
+			dataTotal += fi.Size()
+		}
+		return nil
+	})
+	if dataTotal >= (1<<31-1<<21)*2048 {
+		ev["huge"] = true
+		ref, err := open()
+		if err != nil {
+			ev["opened"] = false
+			ev["err"] = err.Error()
+			ev["tree"] = []interface{}{}
+			em.emit(ev)
+			return nil
+		}
+		st, _ := ref.Stat()
+		ref.Close()
+		ev["opened"], ev["announced"], ev["total"], ev["canon"], ev["bounds"] = true, pos(st.Size()), pos(st.Size()), "ok", []int64{}
+		ev["rawAnnounced"] = fmt.Sprint(st.Size())
+		em.emit(ev)
+		return nil
+	}
 	ref, err := open()
 	if err != nil {
 		ev["opened"] = false
